@@ -246,11 +246,17 @@ def build_chains(job, pattern):
         # several posterior calls per step: spread the per-step delay
         per_call = [v / 3.0 for v in delays_for(pattern, i, N, job["total_steps"] * 3, job["seed"])]
         post = DelayedQuad(quad, per_call)
-        if kind == "gibbs":
-            from inference.mcmc import GibbsChain
-            ch = GibbsChain(posterior=post, start=np.array([float(v) for v in start]),
-                            widths=[float(fr(w)) for w in job["widths"][i]],
-                            temperature=T, display_progress=dp)
+        if kind in ("gibbs", "metropolis", "pca"):
+            # the three classes that share MetropolisChain.__init__
+            if kind == "gibbs":
+                from inference.mcmc import GibbsChain as cls
+            elif kind == "pca":
+                from inference.mcmc import PcaChain as cls
+            else:
+                from inference.mcmc.gibbs import MetropolisChain as cls
+            ch = cls(posterior=post, start=np.array([float(v) for v in start]),
+                     widths=[float(fr(w)) for w in job["widths"][i]],
+                     temperature=T, display_progress=dp)
             ch.rng = ScriptedRNG(job["seed"] * 7919 + i)
             for k, p in enumerate(ch.params):
                 p.rng = ScriptedRNG(job["seed"] * 104729 + 100 * i + k)
